@@ -129,6 +129,8 @@ def inlined(facts, body, depth=0, stack=(), t1=True, t2=True):
                 blk['term'] = {'k': 'goto', 'target': off_b}
                 changed = True
         i += 1
+    if t2 and desugar_combinators(facts, body, blocks, locals_, depth, stack, t1):
+        changed = True
     if t2 and desugar_adaptors(facts, body, blocks, locals_, depth, stack, t1):
         changed = True
     if not changed:
@@ -272,6 +274,220 @@ def _closure_of(facts, blocks, op):
         if cb is not None:
             return l, cb
     return None
+
+
+
+# ======================================================================================================
+# T3 — Option / Result / bool combinators are rewritten into the `match` they stand for
+# ======================================================================================================
+
+def _variant_proj(owner, variant, idx):
+    return [{'k': 'downcast', 'variant': variant, 'idx': idx},
+            {'k': 'field', 'idx': 0, 'name': '0', 'owner': owner, 'variant': variant}]
+
+
+OPT = 'std::option::Option'
+RES = 'std::result::Result'
+SOME_P = _variant_proj(OPT, 'Some', 1)
+OK_P = _variant_proj(RES, 'Ok', 0)
+ERR_P = _variant_proj(RES, 'Err', 1)
+ISIZE = {'k': 'prim', 'name': 'isize', 's': 'isize'}
+
+
+def _agg(owner, variant, vidx, ops):
+    return {'k': 'agg', 'agg': 'adt', 'path': owner, 'variant': variant, 'vidx': vidx, 'is_enum': True,
+            'fields': ['0'] if ops else [], 'ops': ops}
+
+
+# name -> (receiver kind, closure argument positions)
+COMBINATORS = {
+    ('bool', 'then'): 'b', ('bool', 'then_some'): 'b',
+    (OPT, 'map'): 'o', (OPT, 'and_then'): 'o', (OPT, 'filter'): 'o', (OPT, 'or_else'): 'o', (OPT, 'or'): 'o', (OPT, 'map_or'): 'o',
+    (OPT, 'map_or_else'): 'o', (OPT, 'unwrap_or_else'): 'o', (OPT, 'unwrap_or'): 'o', (OPT, 'ok_or'): 'o', (OPT, 'ok_or_else'): 'o',
+    (OPT, 'is_some_and'): 'o', (OPT, 'is_none_or'): 'o',
+    (RES, 'map'): 'r', (RES, 'map_err'): 'r', (RES, 'and_then'): 'r', (RES, 'or_else'): 'r', (RES, 'ok'): 'r', (RES, 'err'): 'r',
+    (RES, 'unwrap_or_else'): 'r', (RES, 'map_or'): 'r', (RES, 'map_or_else'): 'r',
+}
+
+
+def _combinator_key(c):
+    d = c.get('def') or ''
+    n = c.get('name')
+    for owner in (OPT, RES):
+        if d == owner + '::' + n or d == owner.replace('std::', 'core::') + '::' + n:
+            return (owner, n)
+    if d in ('bool::' + str(n), 'core::bool::' + str(n)) or (d.endswith('::' + str(n)) and ((c.get('self_ty') or {}).get('s') == 'bool')):
+        return ('bool', n)
+    return None
+
+
+def desugar_combinators(facts, body, blocks, locals_, depth, stack, t1=True):
+    """`cond.then(|| x)`, `opt.map(f)`, `opt.filter(p)`, `opt.map_or(d, f)`, `opt.ok_or(e)`, `res.map_err(f)`, .. become the
+    switch on the receiver they abbreviate, with the closure bodies spliced into the arms.  Function items used as the
+    callable (`Err`, `Some`, a named fn) are called / built in place."""
+    changed = False
+    i = 0
+    guard = 0
+    while i < len(blocks) and len(blocks) < MAX_BLOCKS and guard < 400:
+        blk = blocks[i]
+        t = blk['term']
+        i += 1
+        if blk['cleanup'] or t['k'] != 'call' or t.get('target') is None or not t.get('callee') or not t['args']:
+            continue
+        key = _combinator_key(t['callee'])
+        if key is None or key not in COMBINATORS:
+            continue
+        owner, name = key
+        args = t['args']
+        B = _Builder(blocks, locals_, t['span'])
+        dest, target = t['dest'], t['target']
+        recv = args[0]
+        if recv['k'] not in ('copy', 'move'):
+            continue
+
+        def callable_of(op):
+            """-> ('closure', local, body) | ('ctor', owner, variant, vidx) | ('fn', callee json) | None"""
+            c = _closure_of(facts, blocks, op)
+            if c is not None:
+                if c[1].uid in stack:
+                    return None
+                return ('closure', c[0], c[1])
+            if op['k'] == 'const' and op.get('fn'):
+                f = op['fn']
+                d = f.get('def') or ''
+                for ow, var, vi in ((OPT, 'Some', 1), (RES, 'Ok', 0), (RES, 'Err', 1)):
+                    if d in (ow + '::' + var, ow.replace('std::', 'core::') + '::' + var):
+                        return ('ctor', ow, var, vi)
+                return ('fn', f)
+            return None
+
+        def emit_call(cur, fn, argops, out_local, cont):
+            """Append to block `cur` the evaluation of callable fn(argops) into out_local, continuing at cont."""
+            if fn[0] == 'closure':
+                _, cl, cb = fn
+                cin = inlined(facts, cb, depth + 1, stack + (body.uid,), t1, True)
+                env_ref = cin.locals[1]['ty'].get('k') == 'ref'
+                env_bind = {'k': 'rv', 'rv': {'k': 'ref', 'mut': bool(cin.locals[1]['ty'].get('mut')), 'place': _pl(cl)}} if env_ref else _cp(cl)
+                mid = B.block()
+                entry, binds, off_l = B.splice(cin, [env_bind] + argops, mid)
+                blocks[cur]['stmts'].extend(binds)
+                blocks[cur]['term'] = {'k': 'goto', 'target': entry}
+                blocks[mid]['stmts'].append(B.use(out_local, _mv(off_l)))
+                blocks[mid]['term'] = {'k': 'goto', 'target': cont}
+            elif fn[0] == 'ctor':
+                blocks[cur]['stmts'].append(B.assign(_pl(out_local), _agg(fn[1], fn[2], fn[3], argops)))
+                blocks[cur]['term'] = {'k': 'goto', 'target': cont}
+            else:
+                blocks[cur]['term'] = B.call(fn[1], argops, out_local, cont)
+
+        # resolve callables up front; give up (leave the call alone) when one is not a literal
+        need = {'then': [1], 'then_some': [], 'map': [1], 'and_then': [1], 'filter': [1], 'or_else': [1], 'or': [], 'map_or': [2],
+                'map_or_else': [1, 2], 'unwrap_or_else': [1], 'unwrap_or': [], 'ok_or': [], 'ok_or_else': [1], 'is_some_and': [1],
+                'is_none_or': [1], 'map_err': [1], 'ok': [], 'err': []}.get(name)
+        if need is None or any(k >= len(args) for k in need):
+            continue
+        fns = {k: callable_of(args[k]) for k in need}
+        if any(v is None for v in fns.values()):
+            continue
+        guard += 1
+        def arm(stmts=None):
+            return B.block(stmts or [])
+
+        def simple(cur, rv):
+            # every arm writes the destination itself: the alternatives stay separate assignment sites
+            blocks[cur]['stmts'].append(B.assign(dest, rv))
+            blocks[cur]['term'] = {'k': 'goto', 'target': target}
+
+        class _Fin:   # `emit_call(.., dl, fin)`: the callable's result is the result of the combinator
+            pass
+        dl, fin = 'DEST', 'FIN'
+        _emit = emit_call
+
+        def emit_call(cur, fn, argops, out_local, cont):
+            if out_local == 'DEST':
+                tmp_ = B.local()
+                last = arm()
+                _emit(cur, fn, argops, tmp_, last)
+                simple(last, {'k': 'use', 'op': _mv(tmp_)})
+            else:
+                _emit(cur, fn, argops, out_local, cont)
+        rplace = recv['place']
+
+        def payload(proj):
+            return {'k': 'move', 'place': {'local': rplace['local'], 'proj': list(rplace['proj']) + proj}}
+        if owner == 'bool':
+            yes, no = arm(), arm()
+            blk['term'] = {'k': 'switch', 'discr': recv, 'discr_ty': BOOL_TY, 'targets': [[0, no]], 'otherwise': yes, 'span': t['span']}
+            simple(no, _agg(OPT, 'None', 0, []))
+            if name == 'then':
+                tmp = B.local()
+                wrap = arm()
+                emit_call(yes, fns[1], [], tmp, wrap)
+                simple(wrap, _agg(OPT, 'Some', 1, [_mv(tmp)]))
+            else:
+                simple(yes, _agg(OPT, 'Some', 1, [args[1]]))
+        else:
+            first, second = (('Some', SOME_P, 1), ('None', None, 0)) if owner == OPT else (('Ok', OK_P, 0), ('Err', ERR_P, 1))
+            d0 = B.local(ISIZE)
+            blk['stmts'].append(B.assign(_pl(d0), {'k': 'discr', 'place': rplace}))
+            a1, a2 = arm(), arm()      # a1: Some / Ok ; a2: None / Err
+            blk['term'] = {'k': 'switch', 'discr': _mv(d0), 'discr_ty': ISIZE, 'targets': [[first[2], a1], [second[2], a2]], 'otherwise': a2, 'span': t['span']}
+            x = payload(first[1])
+            e = payload(second[1]) if second[1] else None
+            whole = {'k': 'move', 'place': rplace}
+            tmp = B.local()
+            wrap = arm()
+            if owner == OPT:
+                if name == 'map':
+                    emit_call(a1, fns[1], [x], tmp, wrap); simple(wrap, _agg(OPT, 'Some', 1, [_mv(tmp)])); simple(a2, _agg(OPT, 'None', 0, []))
+                elif name == 'and_then':
+                    emit_call(a1, fns[1], [x], dl, fin); simple(a2, _agg(OPT, 'None', 0, []))
+                elif name == 'filter':
+                    r_ = {'k': 'rv', 'rv': {'k': 'ref', 'mut': False, 'place': x['place']}}
+                    emit_call(a1, fns[1], [r_], tmp, wrap)
+                    keep, drop = arm(), arm()
+                    blocks[wrap]['term'] = {'k': 'switch', 'discr': _cp(tmp), 'discr_ty': BOOL_TY, 'targets': [[0, drop]], 'otherwise': keep, 'span': t['span']}
+                    simple(keep, _agg(OPT, 'Some', 1, [x])); simple(drop, _agg(OPT, 'None', 0, [])); simple(a2, _agg(OPT, 'None', 0, []))
+                elif name == 'or_else':
+                    simple(a1, {'k': 'use', 'op': whole}); emit_call(a2, fns[1], [], dl, fin)
+                elif name == 'or':
+                    simple(a1, {'k': 'use', 'op': whole}); simple(a2, {'k': 'use', 'op': args[1]})
+                elif name == 'map_or':
+                    emit_call(a1, fns[2], [x], dl, fin); simple(a2, {'k': 'use', 'op': args[1]})
+                elif name == 'map_or_else':
+                    emit_call(a1, fns[2], [x], dl, fin); emit_call(a2, fns[1], [], dl, fin)
+                elif name == 'unwrap_or_else':
+                    simple(a1, {'k': 'use', 'op': x}); emit_call(a2, fns[1], [], dl, fin)
+                elif name == 'unwrap_or':
+                    simple(a1, {'k': 'use', 'op': x}); simple(a2, {'k': 'use', 'op': args[1]})
+                elif name == 'ok_or':
+                    simple(a1, _agg(RES, 'Ok', 0, [x])); simple(a2, _agg(RES, 'Err', 1, [args[1]]))
+                elif name == 'ok_or_else':
+                    simple(a1, _agg(RES, 'Ok', 0, [x])); emit_call(a2, fns[1], [], tmp, wrap); simple(wrap, _agg(RES, 'Err', 1, [_mv(tmp)]))
+                elif name in ('is_some_and', 'is_none_or'):
+                    emit_call(a1, fns[1], [x], dl, fin); simple(a2, {'k': 'use', 'op': _const_bool(name == 'is_none_or')})
+            else:
+                if name == 'map':
+                    emit_call(a1, fns[1], [x], tmp, wrap); simple(wrap, _agg(RES, 'Ok', 0, [_mv(tmp)])); simple(a2, _agg(RES, 'Err', 1, [e]))
+                elif name == 'map_err':
+                    simple(a1, _agg(RES, 'Ok', 0, [x])); emit_call(a2, fns[1], [e], tmp, wrap); simple(wrap, _agg(RES, 'Err', 1, [_mv(tmp)]))
+                elif name == 'and_then':
+                    emit_call(a1, fns[1], [x], dl, fin); simple(a2, _agg(RES, 'Err', 1, [e]))
+                elif name == 'or_else':
+                    simple(a1, _agg(RES, 'Ok', 0, [x])); emit_call(a2, fns[1], [e], dl, fin)
+                elif name == 'ok':
+                    simple(a1, _agg(OPT, 'Some', 1, [x])); simple(a2, _agg(OPT, 'None', 0, []))
+                elif name == 'err':
+                    simple(a1, _agg(OPT, 'None', 0, [])); simple(a2, _agg(OPT, 'Some', 1, [e]))
+                elif name == 'unwrap_or_else':
+                    simple(a1, {'k': 'use', 'op': x}); emit_call(a2, fns[1], [e], dl, fin)
+                elif name == 'map_or':
+                    emit_call(a1, fns[2], [x], dl, fin); simple(a2, {'k': 'use', 'op': args[1]})
+                elif name == 'map_or_else':
+                    emit_call(a1, fns[2], [x], dl, fin); emit_call(a2, fns[1], [e], dl, fin)
+        changed = True
+        i = 0   # new blocks may contain further combinators (chains)
+    return changed
 
 
 def desugar_adaptors(facts, body, blocks, locals_, depth, stack, t1=True):
